@@ -16,7 +16,7 @@ import tempfile
 from . import pyenv, ncchcommon as nc, savecommon as sv
 from .builders import exefs as XB, romfs as RB, pack as P
 
-READERS = ['romfs', 'exefs', 'exefs_lzss', 'ncch', 'ncch_special', 'ncch_plain', 'cia', 'cci', 'cdn', 'sdtitle', 'disa', 'diff', 'nand']
+READERS = ['romfs', 'exefs', 'exefs_lzss', 'ncch', 'ncch_special', 'ncch_plain', 'ncch_lzss', 'srl', 'cia', 'cci', 'cdn', 'sdtitle', 'disa', 'diff', 'nand']
 WRAPPERS = ['w_ctr', 'w_twl', 'w_cbc', 'w_ctr_win', 'w_sub', 'w_merge', 'w_closewrap']
 SOURCES = ['obj', 'path', 'fs']
 CLOSEFD = [None, True, False]
@@ -50,6 +50,18 @@ def images():
     for special in (False, True):
         image, info, kwargs = nc.build(_ncch_spec(special))
         _cache['ncch_special' if special else 'ncch'] = image
+    # an NCCH whose ExeFS holds a compressed .code: the nested ExeFS reader hands out '.code-decompressed' from memory
+    lz = dict(_ncch_spec(False))
+    lz['exefs_data'] = {'.code': code.hex()}
+    lz['exefs'] = [['.code', len(code)], ['icon', 0x36C0], ['banner', 0x100]]
+    for dseed in range(5, 60):
+        lz['dseed'] = dseed
+        image, info, kwargs = nc.build(lz)
+        if any(k_ == 'file' for k_, _v in RB.flatten(info['romfs_tree']).values()):     # the RomFS needs a file to open a handle on
+            break
+    _cache['ncch_lzss'] = image
+    # a DS(i) ROM header as far as SRLReader looks at it: 0x180 header bytes, unit code 0, an icon offset
+    _cache['srl'] = bytes(0x68) + (0x200).to_bytes(4, 'little') + bytes(0x180 - 0x6C) + bytes(0x200 - 0x180) + bytes(0x2400)
     # an unencrypted NCCH: the files of its nested readers are windows stacked directly on the section windows
     _cache['ncch_plain'] = nc.build(dict(_ncch_spec(False), mode='nocrypto'))[0]
     from pyctr.crypto import engine as E
@@ -162,11 +174,21 @@ def build(kind, source, closefd):
             r.decompress_code()
             sc.handles['code_dec'] = r.open('.code-decompressed')
             sc.handles['banner'] = r.open('banner')
-        elif kind in ('ncch', 'ncch_special', 'ncch_plain'):
+        elif kind in ('ncch', 'ncch_special', 'ncch_plain', 'ncch_lzss'):
             from pyctr.type.ncch import NCCHReader
             f, k = _source(sc, source, 'c.ncch', im[kind])
             r = sc.reader = NCCHReader(f, **k, **kw)
             _ncch_handles(sc, r)
+            if kind == 'ncch_lzss':
+                r.exefs.decompress_code()
+                sc.handles['exefs_code_dec'] = r.exefs.open('.code-decompressed')
+        elif kind == 'srl':
+            from pyctr.type.srl import SRLReader
+            f, k = _source(sc, source, 'rom.srl', im['srl'])
+            if k:
+                sc.error = 'n/a'          # SRLReader takes a path or a file object, no filesystem object
+                return sc
+            r = sc.reader = SRLReader(f, **kw)
         elif kind == 'cia':
             from pyctr.type.cia import CIAReader, CIASection
             f, k = _source(sc, source, 't.cia', im['cia'])
@@ -288,6 +310,8 @@ def build(kind, source, closefd):
 
 
 USES = ['read1', 'read0', 'tell', 'seek0']
+# asked of a closed crypto wrapper only: must be refused like any other call (and must not reach the caller's file)
+CLOSED_ONLY_USES = ['truncate']
 
 
 def use(h, how):
@@ -305,6 +329,8 @@ def use(h, how):
             h.readable()
         elif how == 'write':
             h.write(b'x')
+        elif how == 'truncate':
+            h.truncate(8)
         return 'ok'
     except ValueError:
         return 'VE'
